@@ -1166,7 +1166,8 @@ class NestedPipeFunc(PipeFunc):
     def _all_inputs(self) -> tuple[str, ...]:
         inputs: set[str] = set()
         for f in self.pipeline.functions:
-            inputs.update(f.parameters)
+            # A bound parameter has a fixed value, it is not an input of the nested function
+            inputs.update(p for p in f.parameters if p not in f._bound)
         return tuple(sorted(inputs))
 
     @functools.cached_property
